@@ -36,6 +36,28 @@ def field_name(i: int) -> str:
     return "f%d" % i
 
 
+def build_named(desc, name: str, version=(1, 0)) -> pydsdl.CompositeType:
+    """A composite built under an explicitly given short name / version (used to make distinct types share a name)."""
+    assert desc[0] in ("struct", "union", "delim")
+    inner_desc = desc[1] if desc[0] == "delim" else desc
+    cache: dict = {}
+    attrs = []
+    for i, f in enumerate(inner_desc[1]):
+        ft = build(f, cache)
+        attrs.append(pydsdl.PaddingField(ft) if f[0] == "void" else pydsdl.Field(ft, field_name(i)))
+    cls = pydsdl.StructureType if inner_desc[0] == "struct" else pydsdl.UnionType
+    inner = cls(
+        name="vns." + name,
+        version=pydsdl.Version(*version),
+        attributes=attrs,
+        deprecated=False,
+        fixed_port_id=None,
+        source_file_path=NS_DIR / ("%s.%d.%d.dsdl" % (name, version[0], version[1])),
+        has_parent_service=False,
+    )
+    return pydsdl.DelimitedType(inner, desc[2]) if desc[0] == "delim" else inner
+
+
 def build(desc, cache: dict | None = None) -> pydsdl.SerializableType:
     """Realise a description with the public constructors. Nested composites are shared through `cache`."""
     if cache is None:
